@@ -2,7 +2,7 @@
   C06 — JSONB documents decode to an equal JSON document.
   Property theorems only; helper lemmas are in Proofs/Jsonb.lean and Proofs/JsonbRound.lean.
 -/
-import PgVerif.Proofs.JsonbRound
+import PgVerif.Proofs.JsonbKeys
 namespace PgVerif.Props.C06
 open PgVerif PgVerif.Model PgVerif.Proofs
 
@@ -22,36 +22,85 @@ theorem C06_offsets (lens tys : List Nat) (flags : Nat → Bool) (idx base : Nat
 example : entryOffLen (encE (List.replicate 40 3) [] (fun i => i % 32 == 0)) 33 0 = .ok (99, 3) := by
   rfl
 
-/-- The full statement of C06 for the parser as it is: for every well-formed document (object keys
-sorted and distinct, numerics well-formed) whose containers stay within the implementation's limit of
-10 000 elements / pairs and whose encoding is below 2^28 bytes, parsing PostgreSQL's binary encoding
-yields the document's view (same nesting, keys, values, order; numbers by exact value).
-This is a definition (the goal), not a theorem; `C06_roundtrip_partial` proves it for the documents
-without objects. -/
-def C06_roundtrip_statement : Prop :=
-  ∀ j : Spec.Json, j.wf = true → countsOK j = true → (Spec.encJsonb j).length < 0x10000000 →
-    (parseJSONB (Spec.encJsonb j)).map JV.toView = .ok j.view
+/-- What a caller of `DecodeType(data, OidJSONB)` sees: a decoded document, or (fallback) a raw string. -/
+def docOf : DecodeRes → Option Spec.JView
+  | .val v => some v.toView
+  | .raw _ => none
 
-/-- Round trip, proved for every document built from arrays (nested to any depth, any size up to the
-implementation's 10 000-element limit — hence crossing the 32-entry offset stride any number of times —
-including empty arrays at any depth), strings of any length, booleans, null and well-formed numerics
-(any amount of alignment padding), as a container root or a scalar root: `ParseJSONB` applied to
-PostgreSQL's encoding returns exactly the document (numbers by their exact value, see C05).
-What is missing for the full statement: objects (`arraysOnly` excludes them).  The ingredients that are
-specific to objects are proved separately — `C06_offsets` covers the shared key/value entry array with
-offsets counted over the whole array — but the induction step for `parseJSONBObject` (keys, then values
-at index count+i, then the Go map built from pairwise distinct keys) is not done; objects are covered by
-the correspondence runs only. -/
-theorem C06_roundtrip_partial (j : Spec.Json) (hs : arraysOnly j = true)
+/-- Round trip.  For every well-formed JSON document — any nesting of objects and arrays, object keys
+in PostgreSQL's strict (length, bytes) order, strings and keys of any length below 2^28, every
+well-formed numeric, booleans, null; empty objects and arrays at any depth; a container root or a
+scalar root — whose containers stay within the implementation's limit of 10 000 elements / pairs
+(`countsOK`; the limit itself is known finding J10K) and whose encoding is below 2^28 bytes
+(PostgreSQL's own limit for the offsets), `ParseJSONB` applied to PostgreSQL's binary encoding returns
+exactly the document: same nesting, same keys, same values (numbers by their exact value, see C05),
+same order.  Containers of any size up to the limit, so the 32-entry offset stride is crossed any number
+of times in the key half, the value half and in arrays; any amount of alignment padding. -/
+theorem C06_roundtrip (j : Spec.Json) (h : j.wf = true) (hc : countsOK j = true)
     (hsize : (Spec.encJsonb j).length < 0x10000000) :
     (parseJSONB (Spec.encJsonb j)).map JV.toView = .ok j.view :=
-  roundtrip_arraysOnly j hs hsize
+  roundtrip_covered j (covered_of_wf j h hc) hsize
 
-/-- non-vacuity: `["hi", -0.5, [null, true, []], []]` satisfies the hypotheses -/
-example : arraysOnly (.arr [.str [0x68, 0x69], .num (.fin true (-1) 1 [5000]) false,
-      .arr [.null, .bool true, .arr []], .arr []]) = true ∧
-    (Spec.encJsonb (.arr [.str [0x68, 0x69], .num (.fin true (-1) 1 [5000]) false,
-      .arr [.null, .bool true, .arr []], .arr []])).length < 0x10000000 := by
-  decide
+/-- The same with the weaker hypothesis actually used by the proof: object keys need only be pairwise
+distinct (`covered`), not sorted. -/
+theorem C06_roundtrip_distinct_keys (j : Spec.Json) (hs : covered j = true)
+    (hsize : (Spec.encJsonb j).length < 0x10000000) :
+    (parseJSONB (Spec.encJsonb j)).map JV.toView = .ok j.view :=
+  roundtrip_covered j hs hsize
+
+/-- Through `DecodeType(data, OidJSONB)`: the same document, and never the raw-string fallback — in
+particular `{}`, `[]` (fix 05) and the document `null` (fix 06), which used to come back as strings of
+raw bytes. -/
+theorem C06_decodeType (j : Spec.Json) (h : j.wf = true) (hc : countsOK j = true)
+    (hsize : (Spec.encJsonb j).length < 0x10000000) :
+    (decodeTypeJSONB (Spec.encJsonb j)).map docOf = .ok (some j.view) := by
+  have hr := C06_roundtrip j h hc hsize
+  by_cases hn : j.view = .null
+  · -- the only document whose view is null is `null`
+    have : (Spec.encJsonb j) = Spec.encJsonb .null := by
+      cases j with
+      | null => rfl
+      | bool b => exact absurd hn (by simp [Spec.Json.view])
+      | num n l => exact absurd hn (by simp [Spec.Json.view])
+      | str s => exact absurd hn (by simp [Spec.Json.view])
+      | arr xs => exact absurd hn (by simp [Spec.Json.view])
+      | obj kvs => exact absurd hn (by simp [Spec.Json.view])
+    rw [this, hn]
+    rfl
+  · unfold decodeTypeJSONB
+    have hl : ((Spec.encJsonb j).length == 0) = false := by
+      cases hp : parseJSONB (Spec.encJsonb j) with
+      | error e => rw [hp] at hr; simp [Except.map] at hr
+      | ok v =>
+        by_cases h0 : (Spec.encJsonb j).length = 0
+        · have : Spec.encJsonb j = [] := List.eq_nil_of_length_eq_zero h0
+          rw [this] at hp hr
+          have : parseJSONB [] = .ok .nil := rfl
+          rw [this] at hr
+          simp only [Except.map, Except.ok.injEq] at hr
+          exact absurd hr.symm hn
+        · simpa using h0
+    simp only [hl, Bool.false_eq_true, if_false]
+    cases hp : parseJSONB (Spec.encJsonb j) with
+    | error e => rw [hp] at hr; simp [Except.map] at hr
+    | ok v =>
+      rw [hp] at hr
+      simp only [Except.map, Except.ok.injEq] at hr
+      simp only [ok_bind]
+      have hnil : isNil v = false := by
+        cases v with
+        | nil => exact absurd hr.symm hn
+        | _ => rfl
+      simp only [hnil, Bool.not_false, if_true, pure_eq_ok, Except.map, docOf, hr]
+
+/-- a concrete document: `{"a": ["hi", -0.5, [null, true, []], {}], "bb": {}}` -/
+def sampleDoc : Spec.Json :=
+  .obj [([0x61], .arr [.str [0x68, 0x69], .num (.fin true (-1) 1 [5000]) false,
+      .arr [.null, .bool true, .arr []], .obj []]), ([0x62, 0x62], .obj [])]
+
+/-- non-vacuity: it satisfies the hypotheses of `C06_roundtrip` -/
+example : sampleDoc.wf = true ∧ countsOK sampleDoc = true ∧ (Spec.encJsonb sampleDoc).length < 0x10000000 := by
+  have h : (Spec.encJsonb sampleDoc).length = 84 := rfl
+  exact ⟨rfl, rfl, by omega⟩
 
 end PgVerif.Props.C06
